@@ -53,6 +53,13 @@ UNITS['queue'] = dict(
     ],
 )
 
+# the same queue under ArgumentPassingExcludeEvent (default getEvent): only the other enqueue overload is proved here;
+# the spec is unit queue's (spec/eventpp/queuex is a link to it)
+import copy as _copy
+UNITS['queuex'] = _copy.deepcopy(UNITS['queue'])
+UNITS['queuex'].update(tu='inst/queuex.cpp')     # getEvent: the library's default (returns its first argument), stub Pol_getEvent2
+UNITS['queuex']['names'] = {k: v for k, v in UNITS['queue']['names'].items() if v not in ('UserPred', 'UserPred0')}
+
 OQ = 'OrderedQueueList<BufferedItem<QEvent>, UserCompare>'
 OQD = 'OrderedQueueList<BufferedItem<QEvent>, OrderedQueueListCompare>'
 UNITS['ordered'] = dict(
